@@ -7,13 +7,16 @@
 (*   resp  : one FetchBlocksFromPeer call: requested height and the blocks    *)
 (*           handed to the client, as records [id, parent, h, ts, ok]         *)
 (*           (true blocks: id = height; fabricated ones: id >= 100)           *)
+(*   update: Syncer.UpdateSyncTarget(next block from consensus), issued by    *)
+(*           the driver while the client waits for a response                 *)
 (*   save  : BlockStore.SaveHistorical(block)                                 *)
 (*   end   : Syncer.Wait returned (done) or the 30 s watchdog fired; the      *)
 (*           transactions TimeValidityWindow.IsRepeat reports as seen         *)
 (* The spec's own client processes every response (Round); what the real      *)
 (* syncer records must be, block by block, what that client delivered (Save): *)
 (* so unparsable / unlinked / out-of-order blocks can never be recorded.  At  *)
-(* the end: done => everything required is recorded; the tracked set is       *)
+(* the end: done => everything the CURRENT target's window requires is        *)
+(* recorded (or held); the tracked set is                                     *)
 (* exactly the transactions of the blocks the node had plus the recorded      *)
 (* ones; not done is only acceptable while something is still missing and the *)
 (* peers have not just served the real ancestry Need times in a row.          *)
@@ -39,47 +42,51 @@ RespOf(s) == [i \in DOMAIN s |-> Blk(s[i])]
    has and stops at the first one older than the window *)
 StartOf(r) ==
   LET tsf   == TsOf(r)
-      minTs == IF tsf[r.n] - r.win > 0 THEN tsf[r.n] - r.win ELSE 0
-      past  == {h \in (r.n - r.have)..r.n : tsf[h] < minTs}
-  IN IF past = {} THEN r.n - r.have ELSE CHOOSE h \in past : \A g \in past : g <= h
+      minTs == IF tsf[r.n0] - r.win > 0 THEN tsf[r.n0] - r.win ELSE 0
+      past  == {h \in (r.n0 - r.have)..r.n0 : tsf[h] < minTs}
+  IN IF past = {} THEN r.n0 - r.have ELSE CHOOSE h \in past : \A g \in past : g <= h
 
 Load(r) ==
-  /\ conf' = [n |-> r.n, win |-> r.win] /\ ts' = TsOf(r) /\ txs' = TxsOf(r)
-  /\ oldest' = StartOf(r) /\ last' = StartOf(r) /\ reqH' = StartOf(r) - 1
+  /\ conf' = [n |-> r.n, n0 |-> r.n0, win |-> r.win] /\ tgt' = r.n0 /\ ts' = TsOf(r) /\ txs' = TxsOf(r)
+  /\ oldest' = StartOf(r) /\ last' = StartOf(r) /\ inflight' = FALSE /\ reqH' = StartOf(r) - 1
   /\ cdone' = FALSE /\ delivered' = <<>> /\ saved' = <<>> /\ sdone' = FALSE /\ faults' = 0 /\ streak' = 0
 
 TraceInit ==
   /\ l = 2 /\ TLCSet(1, 1) /\ Trace[1].ev = "reset"
   /\ LET r == Trace[1] IN
-     /\ conf = [n |-> r.n, win |-> r.win] /\ ts = TsOf(r) /\ txs = TxsOf(r)
-     /\ oldest = StartOf(r) /\ last = StartOf(r) /\ reqH = StartOf(r) - 1
+     /\ conf = [n |-> r.n, n0 |-> r.n0, win |-> r.win] /\ tgt = r.n0 /\ ts = TsOf(r) /\ txs = TxsOf(r)
+     /\ oldest = StartOf(r) /\ last = StartOf(r) /\ inflight = FALSE /\ reqH = StartOf(r) - 1
      /\ cdone = FALSE /\ delivered = <<>> /\ saved = <<>> /\ sdone = FALSE /\ faults = 0 /\ streak = 0
 
 Ev(e)  == l <= NL /\ T.ev = e /\ l' = l + 1
 TReset == Ev("reset") /\ Load(T)
 
-ClientFinished == cdone \/ Past(last) \/ (StopAtGenesis /\ last = 0)
+(* a response: the real client sent the request, so it had passed its loop check then (updates that arrived while it
+   waited are already in the log); once the spec's client has closed the channel further requests are judged at "end" *)
 TResp ==
   /\ Ev("resp") /\ UNCHANGED txs
   /\ LET r == RespOf(T.blocks) IN
      /\ streak' = IF r # <<>> /\ r = Honest(T.h) THEN streak + 1 ELSE 0
-     /\ IF ClientFinished
-          THEN UNCHANGED vars                    \* a request nobody needs any more: judged at "end"
-          ELSE Round(r) /\ UNCHANGED faults
+     /\ IF cdone THEN UNCHANGED vars
+        ELSE RoundBody(r) /\ UNCHANGED <<inflight, faults>>
+
+TUpdate ==
+  /\ Ev("update") /\ UNCHANGED <<txs, streak>>
+  /\ T.h = tgt + 1 /\ Forward
 
 TSave ==
   /\ Ev("save") /\ UNCHANGED <<txs, streak>>
   /\ Save
   /\ Blk(T) = saved'[Len(saved')]
 
-Expected == UNION {txs[h] : h \in (oldest..N) \cup SavedHeights}
+Expected == UNION {txs[h] : h \in (oldest..tgt) \cup SavedHeights}
 TEnd ==
   /\ Ev("end") /\ UNCHANGED <<vars, txs, streak>>
   /\ T.done => Required(oldest) \subseteq SavedHeights
   /\ ~T.done => (~NothingLeftToFetch /\ streak < Need)
   /\ SetOf(T.tracked) = SetOf(T.universe) \cap Expected
 
-TraceNext == TReset \/ TResp \/ TSave \/ TEnd
+TraceNext == TReset \/ TResp \/ TUpdate \/ TSave \/ TEnd
 TraceSpec == TraceInit /\ [][TraceNext]_tvars
 
 HWM      == TLCSet(1, IF TLCGet(1) > l - 1 THEN TLCGet(1) ELSE l - 1)
